@@ -715,6 +715,31 @@ func ruleAppendBoundary(p *Prog, r *Report) {
 				}
 			}
 		}
+		// the same position handed to slices.Insert, here or in a helper new to the tree
+		fns := []*ssa.Function{fn}
+		for _, cs := range callsOf(fn) {
+			if isNewHelper(cs.Static) {
+				fns = append(fns, cs.Static)
+			}
+		}
+		for _, f := range fns {
+			for _, cs := range callsOf(f) {
+				if cs.Static == nil {
+					continue
+				}
+				g := cs.Static
+				if o := g.Origin(); o != nil {
+					g = o
+				}
+				if rawShortName(g) != "slices.Insert" || len(cs.In.Common().Args) < 2 {
+					continue
+				}
+				n++
+				okIdx := provedNonNegative(f, cs.In.Common().Args[1], cs.In.Block(), 0, map[ssa.Value]bool{})
+				r.add("R18.4", "append-index-clamped|"+name+"|slices.Insert", p.ipos(cs.In), "insert position from the backwards permit search cannot be negative at slices.Insert", okIdx,
+					"[APPEND] on an ACL without permit line: slices.Insert panics with slice bounds out of range [-1:]")
+			}
+		}
 		r.floor("R18.4", "append-position slice expressions in "+name, n, 1)
 	}
 }
@@ -803,8 +828,37 @@ func ruleMergeOrder(p *Prog, r *Report) {
 				}
 			}
 		}
+		// the splice written with the library: slices.Insert(acl, i, appendACL...), here or in a
+		// helper the audited tree does not have that is handed the [APPEND] list
+		isInsert := func(f *ssa.Function) bool {
+			if f == nil {
+				return false
+			}
+			if o := f.Origin(); o != nil {
+				f = o
+			}
+			return rawShortName(f) == "slices.Insert"
+		}
+		for _, cs := range callsOf(fn) {
+			args := cs.In.Common().Args
+			if isInsert(cs.Static) && len(args) == 3 && kindOf(args[2]) == "flag" {
+				app = true
+			}
+			if isNewHelper(cs.Static) {
+				for k, a := range args {
+					if kindOf(a) != "flag" || k >= len(cs.Static.Params) {
+						continue
+					}
+					for _, cs2 := range callsOf(cs.Static) {
+						if a2 := cs2.In.Common().Args; isInsert(cs2.Static) && len(a2) == 3 && a2[2] == ssa.Value(cs.Static.Params[k]) {
+							app = true
+						}
+					}
+				}
+			}
+		}
 		r.add("R18.6", "prepend-order|"+name, p.pos(fn.Pos()), "merged ACL = prependACL ++ existing ACL", pre, "raw lines without [APPEND] no longer precede the Netspoc lines")
-		r.add("R18.6", "append-splice|"+name, p.pos(fn.Pos()), "APPEND lines are spliced as acl[:i] ++ appendACL ++ acl[i:]", app, "APPEND lines are not placed between the last permit and the trailing deny lines")
+		r.add("R18.6", "append-splice|"+name, p.pos(fn.Pos()), "APPEND lines are spliced as acl[:i] ++ appendACL ++ acl[i:] (or slices.Insert(acl, i, appendACL...))", app, "APPEND lines are not placed between the last permit and the trailing deny lines")
 		// sorting into the two lists by the append flag
 		flagOK := false
 		for _, b := range fn.Blocks {
